@@ -65,6 +65,17 @@ SETTINGS = [(1e-6, 10000)] * 4 + [(1e-2, 10000), (1e-4, 10000), (1e-9, 10000), (
 
 
 def gen(rng, i, tier):
+    case = _gen(rng, i, tier)
+    # vtol and itol are independent settings: sometimes one is (much) tighter than the other
+    r = rng.random()
+    if case["mode"] != "benign" and r < 0.35:
+        case["itol"] = rng.choice([1e-3, 1e-6, 1e-9, 1e-11])
+    elif case["mode"] != "benign" and r < 0.5:
+        case["vtol"] = rng.choice([1e-3, 1e-9, 1e-11])
+    return case
+
+
+def _gen(rng, i, tier):
     big = tier == "thorough"
     mode = rng.choice(["benign", "benign", "heavy", "overload", "family"])
     tol, maxiter = rng.choice(SETTINGS)
@@ -156,17 +167,19 @@ def directed():
 def run(ctx, case):
     spec = case["spec"]
     tolv = case["tol"]
-    tol = M.Tol(tolv, tolv)
+    vtol, itol = case.get("vtol", tolv), case.get("itol", tolv)
+    tol = M.Tol(vtol, itol)
     st, sysobj = H.try_build(spec)
     if st != "ok":
         raise RuntimeError("generator produced a spec the public API rejects: %s" % H.exc_sig(sysobj))
     ns = loader.load()
     _probe["solves"] = []
-    st, df = H.solve(sysobj, vtol=tolv, itol=tolv, maxiter=case["maxiter"], ta=case["ta"])
+    st, df = H.solve(sysobj, vtol=vtol, itol=itol, maxiter=case["maxiter"], ta=case["ta"])
     solves = list(_probe["solves"])
     outcome = "returned" if st == "ok" else type(df).__name__
     ctx.count("outcome/" + case["mode"], outcome)
-    det = {"settings": {"tol": tolv, "maxiter": case["maxiter"]}, "mode": case["mode"]}
+    det = {"settings": {"vtol": vtol, "itol": itol, "maxiter": case["maxiter"]}, "mode": case["mode"]}
+    ctx.count("tolerances", "vtol%sitol" % ("=" if vtol == itol else ("<" if vtol < itol else ">")))
     # (e) sweep bound
     for rec in solves:
         ctx.check("sweeps.bound", rec["sweeps"] <= case["maxiter"] + 1,
@@ -189,7 +202,7 @@ def run(ctx, case):
             v, i, state, ph = rec["v"], rec["i"], rec["state"], rec["phase"]
             vi, _ = sysobj._fwd_prop(v, i, ph, state)
             ii = sysobj._back_prop(vi, i, ph, state)
-            okc = bool(np.allclose(np.array(v), np.array(vi), rtol=tolv) and np.allclose(np.array(i), np.array(ii), rtol=tolv))
+            okc = bool(np.allclose(np.array(v), np.array(vi), rtol=vtol) and np.allclose(np.array(i), np.array(ii), rtol=itol))
             ctx.check("converged.resweep", okc and ok_iters,
                       dict(det, phase=ph, iters=rec["iters"], max_dv=float(np.max(np.abs(np.array(v) - np.array(vi)))),
                            max_di=float(np.max(np.abs(np.array(i) - np.array(ii))))))
@@ -204,7 +217,7 @@ def run(ctx, case):
             elif not feasible and case["maxiter"] >= 50:
                 ctx.check("overload.decided", st == "raise" and isinstance(df, (RuntimeError, ValueError)),
                           dict(det, family=m, outcome=outcome, why="no physical operating point: must raise"))
-            elif feasible and drop <= 0.9 * V and case["maxiter"] >= 50 and tolv >= 1e-9:
+            elif feasible and drop <= 0.9 * V and case["maxiter"] >= 50 and min(vtol, itol) >= 1e-9:
                 ctx.check("overload.decided", st == "ok", dict(det, family=m, outcome=H.exc_sig(df) if st != "ok" else "",
                                                                why="operating point exists (constant current): must solve"))
         ctx.see("family", "%s/%s/f=%s" % (m["series"], m["load"], m["f"]))
@@ -213,7 +226,7 @@ def run(ctx, case):
         benign(ctx, case, spec, st, df, det)
     _rows.observe(ctx, spec)
     if len(spec["comps"]) >= 3:
-        ctx.nontrivial([S.canonical(spec), tolv, case["maxiter"]])
+        ctx.nontrivial([S.canonical(spec), vtol, itol, case["maxiter"]])
     ctx.sample({"spec": _rows.short(spec), "settings": det["settings"], "outcome": outcome})
 
 
